@@ -15,3 +15,14 @@ Definition run_bitmap (prop : N) (cs : list bcase) : list (list N) :=
          (check_all step (accept (bitmap_scfg prop g)) out_eqb 1 [(binit g, sinit, snd (snd ic))]))
      (combine (map N.of_nat (seq 1 (length cs))) cs)).
 Definition run_bitmap_case := bcase.
+
+(* epoch: case = (base, pool prefix length, prefix length, grace), trace *)
+From Verif Require Import Model.Epoch.
+Definition run_epoch_case := ((N * N * N * N) * list (op * out))%type.
+Definition run_epoch (prop : N) (cs : list run_epoch_case) : list (list N) :=
+  concat (map (fun ic : N * run_epoch_case =>
+     let '(base, ppl, pl, grace) := fst (snd ic) in
+     map (fun row => match row with _ :: v => fst ic :: v | [] => [] end)
+         (check_all Epoch.step (accept (epoch_scfg prop base ppl pl grace)) out_eqb 1
+                    [(einit base ppl pl grace, sinit, snd (snd ic))]))
+     (combine (map N.of_nat (seq 1 (length cs))) cs)).
